@@ -31,7 +31,8 @@ class C19(CheckBase):
     assumptions = ['TLS itself is a model: only which connections are wrapped with which context and which URLs are advertised '
                    'is decided']
     expected_probes = ['provider_tls', 'consumer_enforced', 'consumer_optional', 'shared_server', 'alt_hostname', 'restart',
-                       'fallback_to_plaintext_seen', 'enforced_refused_plaintext_peer']
+                       'fallback_to_plaintext_seen', 'enforced_refused_plaintext_peer', 'downgrade_attempt',
+                       'downgrade_refused']
     max_steps = 6_000_000
 
     def budget(self, tier):
@@ -47,7 +48,7 @@ class C19(CheckBase):
         ops = [op for op in (g.gen_op(kinds=['metric', 'alert', 'context']) for _ in range(rng.randint(1, 4))) if op]
         return {'sched': draw_sched_config(rng, line_ok=False), 'world': cfg, 'cell': cell, 'ops': ops,
                 'restart': rng.random() < 0.4, 'provider_tls_after_restart': rng.choice([None, None, False]),
-                'send_end': rng.random() < 0.8}
+                'send_end': rng.random() < 0.8, 'downgrade': rng.random() < 0.5}
 
     # ------------------------------------------------------------------
     def body(self, ctx):
@@ -142,6 +143,34 @@ class C19(CheckBase):
                     except Exception:  # noqa: BLE001
                         pass
             w.settle(3.0)
+            if plan.get('downgrade') and cell['consumer'] == 'enforced' and cell['provider_tls']:
+                # downgrade attempt: the consumer stops, the provider's address is taken over by a party that answers the
+                # ClientHello in plaintext (e.g. the provider restarted without TLS), the consumer starts again
+                ctx.probe('downgrade_attempt')
+                with worldb.node(worldb.CONSUMER_IPS[0]):
+                    try:
+                        c.stop_all(unsubscribe=True)
+                    except Exception:  # noqa: BLE001
+                        pass
+                    w.settle(2.0)
+                    saved = []
+                    for lst in net.listeners.values():
+                        if lst.addr[0] == worldb.PROVIDER_IP and lst.tls_context is not None:
+                            saved.append((lst, lst.tls_context))
+                            lst.tls_context = None
+                    try:
+                        c.start_all(**(w.cfg.get('consumer_start_args') or {}))
+                        ctx.violation('C19.consumer', 'connected-after-downgrade',
+                                      f'{cell}: start_all of the TLS-enforced consumer succeeded against a plaintext peer')
+                    except Exception:  # noqa: BLE001
+                        ctx.probe('downgrade_refused')
+                    w.settle(2.0)
+                    for lst, tc in saved:
+                        lst.tls_context = tc
+                    try:
+                        c.stop_all(unsubscribe=False)
+                    except Exception:  # noqa: BLE001
+                        pass
         finished, exc = w.stop_provider_guarded(plan['send_end'])
         if not finished:
             # a shutdown that hangs is a liveness defect, but not a statement of C19 (C08 owns that oracle): do not
